@@ -91,11 +91,52 @@ func NewScratch() (string, error) {
 			}
 		}
 	}
+	guardBuildCache(base)
 	d := filepath.Join(base, fmt.Sprintf("sebuf-verif.%d", os.Getpid()))
 	if err := os.MkdirAll(d, 0o755); err != nil {
 		return "", err
 	}
 	return d, nil
+}
+
+// runLock is held (shared) for the life of the process; see guardBuildCache.
+var runLock *os.File
+
+// guardBuildCache keeps the Go build cache from filling the disk: every generated package of every
+// lab is a new cache entry (field names are seeded), and Go only trims entries after days. Each
+// driver process holds a shared lock on <scratch>/sebuf-verif.lock; a process that finds less than
+// 30 GiB free (or VERIF_CACHE_MIN_FREE_GB) on the cache's file system and can take the lock
+// exclusively — i.e. no other check is building — empties the cache before it starts.
+func guardBuildCache(base string) {
+	lf, err := os.OpenFile(filepath.Join(base, "sebuf-verif.lock"), os.O_CREATE|os.O_RDWR, 0o644)
+	if err != nil {
+		return
+	}
+	runLock = lf
+	defer func() { _ = syscall.Flock(int(lf.Fd()), syscall.LOCK_SH) }()
+	out, err := exec.Command(GoBin(), "env", "GOCACHE").Output()
+	cache := strings.TrimSpace(string(out))
+	if err != nil || cache == "" || cache == "off" {
+		return
+	}
+	var st syscall.Statfs_t
+	if syscall.Statfs(cache, &st) != nil {
+		return
+	}
+	minFree := uint64(30)
+	if v := os.Getenv("VERIF_CACHE_MIN_FREE_GB"); v != "" {
+		fmt.Sscanf(v, "%d", &minFree)
+	}
+	if st.Bavail*uint64(st.Bsize) >= minFree<<30 {
+		return
+	}
+	if syscall.Flock(int(lf.Fd()), syscall.LOCK_EX|syscall.LOCK_NB) != nil {
+		return // another check is running: leave the cache alone
+	}
+	cmd := exec.Command(GoBin(), "clean", "-cache")
+	cmd.Env = GoEnv()
+	_ = cmd.Run()
+	fmt.Println("NOTE build cache emptied (low disk space)")
 }
 
 // Build compiles the five plugins from RepoDir's working tree plus protoc-gen-go.
